@@ -44,7 +44,9 @@ func init() {
 		Rule: "model values (DigitallySigned in ct and x509/ct; SCT; Merkle leaf; X509/precert chain; SCT and STH signature inputs) with field sizes drawn from " +
 			"{0,1,typical,65535,65536,70000,2^24-1,2^24}, all 256 algorithm/version byte values; verifier: genuine signatures by pool keys (ECDSA P-256, RSA 2048/3072/4096; " +
 			"non-compliant key types offered to the constructor) made with Go crypto/* over the reference RFC 6962 input, then one mutation of signature / algorithm bytes / " +
-			"timestamp / entry type / certificate / extensions / issuer key hash / tree size / root hash / version / log id / signing key. " +
+			"timestamp / entry type / certificate / extensions / issuer key hash / tree size / root hash / version / log id / signing key; " +
+			"multi-call legs over every byte-returning function of ct and x509/ct: batches of 2..6 outputs kept as returned and compared afterwards, signature inputs prepared-then-signed-then-verified, " +
+			"6-goroutine concurrent serialise/verify rounds. " +
 			"non-trivial = (value case) zcrypto returned bytes or a decoded value that entered a comparison, or (verifier case) the unmutated signature verifies under Go crypto/*; " +
 			"distinct by hash of (kind, model value[, key, mutation])",
 		MinNontrivial:         14000,
@@ -1260,6 +1262,9 @@ func runC16(c *core.Ctx) {
 		}
 	}
 	t.maximalCases()
+	for i, nbatch := 0, c.PerShard(c.Pick(3200, 60000)); i < nbatch; i++ {
+		t.batchCase(fmt.Sprintf("batch-%d", i))
+	}
 
 	// verifier
 	lks := buildLogKeys()
@@ -1299,5 +1304,11 @@ func runC16(c *core.Ctx) {
 	nb := c.PerShard(c.Pick(1400, 40000))
 	for i := 0; i < nb; i++ {
 		t.verifierBase(i, usable)
+	}
+	for i, ns := 0, c.PerShard(c.Pick(640, 16000)); i < ns; i++ {
+		t.sequenceCase(fmt.Sprintf("seq-%d", i), usable)
+	}
+	for i, nc := 0, c.PerShard(c.Pick(160, 3200)); i < nc; i++ {
+		t.concurrentRound(fmt.Sprintf("conc-%d", i), usable)
 	}
 }
